@@ -350,6 +350,13 @@ def run(chk, tier, seed):
     chk.part("cases", pairs=len(pairs), formats=len(fmts), str_formats=len(sf), sorts=len(ins), failing_comparator_runs=len(fail_jobs))
     chk.sample({"pair": pairs[len(pairs) // 2]})
     chk.sample({"format": fmts[len(fmts) // 2]})
+    # ---- E2: XrMapEx: every history of <= 4 updates over colliding keys; versions with equal contents reached through different
+    # histories (other insertion orders inside one bucket, a key removed and set again) are == and hash equally
+    from checks import c17
+    c17.exhaustive(chk, "map", [0, 1, 2], 4, 0, 2, "c19-map-h2")
+    if tier != "quick":
+        c17.exhaustive(chk, "map", [0, 1, 2], 4, 0, 1, "c19-map-h1")
+        c17.exhaustive(chk, "set", [0, 1, 2, 3], 5, 0, 2, "c19-set4-h2")
     chk.cov["rule"] = ("all typed value pairs of the XrOrder universe (10 nested types) with eq/ne/cmp/lt/le/gt/ge/hash/to_str; "
                        "all well-formed integer format specifiers of the enumerated grammar x 9 values; sort inputs of length "
                        "0..200 (random, few keys, sorted, reversed, almost sorted) against the stable reference, plus "
@@ -361,6 +368,9 @@ def run(chk, tier, seed):
 
 def replay(chk, path):
     rp = json.load(open(path))
+    if rp.get("kind") in ("map", "map-repr"):
+        from checks import c17
+        return c17.replay(chk, path)
     src = rp["source"]
     import re
     names = re.findall(r"let (\w+)", src)
